@@ -193,13 +193,25 @@ fn server(end: End, reply: Option<Vec<u8>>, ident: String, post: Vec<Vec<u8>>) -
 }
 
 fn run_connector(cfg: &Cfg, check: bool, end: End) -> RdpResult<()> {
-    let mut connector = Connector::new()
-        .screen(800, 600)
-        .credentials(cfg.domain.clone(), cfg.user.clone(), cfg.pw.clone())
-        .set_restricted_admin_mode(cfg.ram)
-        .check_certificate(check)
-        .name(cfg.name.clone())
-        .use_nla(cfg.offered & 2 != 0);
+    // the builder's setters are independent: both call orders are exercised (options before the credentials when certificate
+    // checking is on, after them otherwise), so a setter that resets what an earlier one stored shows up
+    let mut connector = if check {
+        Connector::new()
+            .check_certificate(check)
+            .use_nla(cfg.offered & 2 != 0)
+            .set_restricted_admin_mode(cfg.ram)
+            .name(cfg.name.clone())
+            .screen(800, 600)
+            .credentials(cfg.domain.clone(), cfg.user.clone(), cfg.pw.clone())
+    } else {
+        Connector::new()
+            .screen(800, 600)
+            .credentials(cfg.domain.clone(), cfg.user.clone(), cfg.pw.clone())
+            .set_restricted_admin_mode(cfg.ram)
+            .check_certificate(check)
+            .name(cfg.name.clone())
+            .use_nla(cfg.offered & 2 != 0)
+    };
     connector.connect(end).map(|_client| ())
 }
 
